@@ -56,6 +56,22 @@ CHECKS = {
                 technique="Hypothesis-generated multi-simulation programs under harness-owned step-granular schedules and in parallel threads vs fresh-process isolated runs; loopback HTTP client against the built-in server with heartbeat-recorded step boundaries",
                 text="Generated programs of 2-8 simulations over all integrator families (steps, integrate, copy, save/load, pickle, synchronise, particle churn) run under a generated interleaving in one thread and in parallel threads; each final field map must equal bitwise the same program run alone in a fresh process. Served runs: every /simulation response equals the run's own heartbeat record of a step boundary (status/dt aside) and continues bitwise; serving never alters the final state nor other threads' descriptors. One open known finding (WHFast512 shared file-scope constants).",
                 note="Intra-call thread interleavings and request arrival times are sampled by the OS, not controlled: the oracle is schedule-independent, so a failure is real and a pass is weak evidence there; the step-granular schedule (interleave) is deterministic and replayable. Timeouts are counted, never verdicts."),
+    "C01": dict(level="exploration", design="1/C01",
+                technique="Hypothesis + enumerated option lattice vs an independent quad-precision (__float128 Gragg-Bulirsch-Stoer) reference integrator; robust convergence-order measurement over four step halvings",
+                text="Every built-in integrator over its documented option lattice (WHFast 4 coordinate systems x kernels x correctors x safe_mode; 18 SABA types; 9x9 EOS x n; JANUS 2-10; MERCURIUS; TRACE incl. pericentre modes; IAS15 fixed and adaptive; BS; SEI; WHFast512; user ODEs) is run on generated collision-free systems (N<=9, three mass regimes, both directions of time, test-particle types 0/1) and compared with a harness-owned quad-precision reference: the observed convergence order is within 0.8 of the advertised one wherever double precision can measure it (orders above 6 asserted as >=6), errors converge to the true solution, adaptive schemes stay in their accuracy class and do not get worse when the tolerance is tightened. ~2200 cases per quick run, ~47000 per thorough pass.",
+                note="Trusted base: vf/chelpers/c01_refnbody.c, validated to 1e-22 against closed forms (Kepler both directions, Lagrange triangle, Hill epicycle, forced oscillator) before each run; order table transcribed from docs/integrators.md; horizon 2-6 inner periods; e<=0.3 (trace_peri e<=0.9); measurable window [1.6e-11, 1e-2] with a modelled rounding floor. Coefficient errors that change only the error constant inside the window are not detected (mutant eos-lf4-coefficient-digits, 5e-10, is missed); planet-planet close encounters of the hybrids are not exercised; barycentric WHFast only with N<=4."),
+    "C16": dict(level="exploration", design="1/C16",
+                technique="Hypothesis + finite-difference / shadow-trajectory oracle (Richardson-estimated tolerances) + metamorphic rescaling + MEGNO limit",
+                text="All 65 derivative constructors agree with 4th-order finite differences of REBOUND's own element-to-Cartesian maps to a Richardson-estimated bound; first- and second-order variational particles (IAS15, BS; WHFast and LEAPFROG at order 1) agree with differences of shadow trajectories for Cartesian, mass, classical and Pal parameters, any varied particle, test-particle variations, over 0.3-30 orbits; the automatic rescale preserves coordinates*exp(lrescale) to 2^17 eps; MEGNO tends to 2 and the Lyapunov estimate to 0 on regular two-planet systems. One open known finding (WHFast ignores mass variations).",
+                note="REBOUND's own element maps (C11) and IAS15 trajectories (C01) serve as the reference, as the property states ('derivatives of the trajectory'). BS is not in the rescale sub-check; EOS variations and testparticle_type=1 are not covered."),
+    "C13": dict(level="exploration", design="1/C13",
+                technique="Hypothesis-generated clusters/chains and multi-step histories vs a brute-force longdouble evaluation of the documented collision predicate (with an explicit ambiguity band) and per-call / per-step conservation oracles",
+                text="Generated clusters and chains (radii over 4 decades incl. 0, up to 300 dust particles to deepen the tree, all four searches, none/open/periodic/shear boundaries with ghost rings, keep_sorted on/off, generated order seeds): no clearly colliding pair is missed and none clearly non-colliding is reported; a removing resolver always receives valid, still-existing reference pairs; merge and hard-sphere resolution conserve mass, momentum, centre of mass / kinetic energy per call and per step over multi-step histories; no particle is lost, duplicated or merged twice.",
+                note="Trusted: the documented predicate evaluated in longdouble; pairs within 32 eps*scale of a predicate boundary are not asserted either way; innermost ghost ring only; masses > 0 when collisions are on; shear images for t>=0; no near-coincident particles (the tree cannot separate them)."),
+    "C15": dict(level="exploration", design="1/C15",
+                technique="Hypothesis op-list state machine with a longdouble shadow model of unwrapped coordinates and a read-only harness-owned C tree walker; theta=0 tree force vs direct sum",
+                text="Histories of free-streaming particles (up to 3.5 root boxes per step, adds, unsorted removals, merging collisions) under periodic / shear / open boundaries: coordinates change only by whole box lengths plus the documented shear offsets, N is unchanged, open boundaries remove exactly the predicted set; at the moment gravity uses the tree and after explicit updates every particle is in exactly one leaf that contains it, with correct counts, cell masses and centres of mass, and the theta=0 tree force equals the direct sum over all ghost images. Includes particles exactly on (and 1-2 ulp beside) root, cell and outer faces.",
+                note="Trusted: the step schedule read from the anchors; G=0 in the tree-gravity configuration makes the streaming exact; containment and geometry asserted to 16 eps*box scale (particles in a rounding sliver legitimately churn); last-particle removal and remove_all are left to C14."),
 }
 
 NOT_APPLICABLE = []
